@@ -2,7 +2,7 @@
    fickling's interpreter (Interp.v) emits, run against the same inert-stub world as the reference
    VM (RefVM.v): imports bind stand-in globals, every other name is an implicit builtin stand-in,
    calling a stand-in logs EvCall and returns a fresh opaque object, x.__setstate__(s) logs
-   EvSetState, x[k] = v and x.update({...}) on a stand-in log EvSetItem,
+   EvSetState, x[k] = v on a stand-in logs EvSetItem,
    UNPICKLER.persistent_load(pid) logs EvPersLoad.
 
    A mutable node (ast.List / ast.Set / ast.Dict object of fickling) is PRINTED by ast.unparse as a
@@ -228,30 +228,6 @@ Definition peval (ns : list node) (fuel : nat) (e : expr) (s : pst) : res (val *
 Definition imported (n : string) (s : pst) : bool :=
   match assoc_str n (pimports s) with Some _ => true | None => false end.
 
-(* two dict keys that are certainly different Python objects under == (no numeric cross-type
-   reasoning: int / bool / float keys are only told apart when both are ints) *)
-Definition key_class (v : val) : nat :=
-  match v with
-  | VConst (CInt _) | VConst (CBool _) | VConst (CFloat _) => 0
-  | VConst (CStr _) => 1 | VConst (CBytes _) => 2 | VConst CNone => 3
-  | VTuple _ => 4 | VFrozen _ => 5 | VGlobal _ _ => 6 | VObj _ => 7 | VRef _ => 8
-  end.
-Definition surely_distinct (a b : val) : bool :=
-  if negb (Nat.eqb (key_class a) (key_class b)) then true else
-  match a, b with
-  | VConst (CInt x), VConst (CInt y) => negb (Z.eqb x y)
-  | VConst (CStr x), VConst (CStr y) => negb (String.eqb x y)
-  | VConst (CBytes x), VConst (CBytes y) => negb (String.eqb x y)
-  | VObj x, VObj y => negb (Nat.eqb x y)
-  | VGlobal m1 n1, VGlobal m2 n2 => negb (String.eqb (gnorm m1) (gnorm m2) && String.eqb n1 n2)
-  | _, _ => false
-  end.
-Fixpoint keys_distinct (l : list val) : bool :=
-  match l with
-  | [] => true
-  | k :: r => forallb (surely_distinct k) r && keys_distinct r
-  end.
-
 Definition is_pers_load (f : expr) : bool :=
   match f with
   | EAttr (EName u) a => (u =? "UNPICKLER") && (a =? "persistent_load")
@@ -278,25 +254,6 @@ Definition exec_call (ns : list node) (fuel : nat) (f : expr) (args : list expr)
         match args, kw with
         | [st], None =>
             do '(sv, s2) <- peval ns fuel st s1; Ok (VConst CNone, plog_add (EvSetState o sv) s2)
-        | _, _ => Err EUnmodelled
-        end
-      else if a =? "update" then
-        match args, kw with
-        | [EDictLit kvs], None =>
-            do '(d, s2) <- peval ns fuel (EDictLit kvs) s1;
-            match d with
-            | VRef i =>
-                match nth_error (pheap s2) i with
-                | Some (HDict ps) =>
-                    (* d.items() merges equal keys: only modelled when there are none *)
-                    if keys_distinct (map fst ps) then
-                      Ok (VConst CNone,
-                          fold_left (fun st kv => plog_add (EvSetItem o (fst kv) (snd kv)) st) ps s2)
-                    else Err EUnmodelled
-                | _ => Err EUnmodelled
-                end
-            | _ => Err EUnmodelled
-            end
         | _, _ => Err EUnmodelled
         end
       else Err EUnmodelled
@@ -481,8 +438,8 @@ Definition okname_at (all : list string) (imps : list (string * string)) (s : st
   mem_str s (map fst imps) || negb (mem_str s all).
 
 (* one statement, given the number of variables and the imports defined BEFORE it.
-   Not covered (false): x.update({...}) (SETITEMS on a stand-in), **kwargs (NEWOBJ_EX), and
-   `_var<i> = <global name>` (BUILD / SETITEM(S) applied to a global itself). *)
+   Not covered (false): **kwargs (NEWOBJ_EX), and `_var<i> = <global name>` (BUILD / SETITEM(S)
+   applied to a global itself). *)
 Definition stmt_fits (n : nat) (ns : list node) (bound : nat) (all : list string)
            (imps : list (string * string)) (st : stmt) : bool :=
   let ft := fits n ns bound (okname_at all imps) in
